@@ -112,6 +112,8 @@ def main():
     extra = dict(extra or {})
     extra['source_digest'] = source_digest(getattr(mod, 'FILES', []))
     extra['open_known_findings'] = open_ids
+    if a.only:
+        extra['partial_run_filter'] = a.only      # a run restricted with --only is marked as partial in its evidence
     write_evidence(pid, a.tier, results, wall, extra=extra)
     viol = [r for r in results if r.status == 'violation']
     decided = [r for r in results if r.status in ('pass', 'violation', 'known')]
